@@ -82,8 +82,8 @@ SAMPLED = {
 }
 
 FIELDS = {
-    "C08": ["no_panic", "lin_verdict", "lin_ser", "lin_ser_iff", "lin_illformed", "lin_calls", "lin_len"],
-    "C14": ["no_panic", "sc_verdict", "sc_ser", "sc_ser_iff", "sc_illformed", "sc_calls", "sc_len", "lin_implies_sc",
+    "C08": ["no_panic", "lin_verdict", "lin_ser", "lin_ser_iff", "lin_illformed", "lin_calls", "lin_len", "lin_invret"],
+    "C14": ["no_panic", "sc_verdict", "sc_ser", "sc_ser_iff", "sc_illformed", "sc_calls", "sc_len", "sc_invret", "lin_implies_sc",
             "clone_isolated"],
 }
 
